@@ -591,7 +591,7 @@ def instantiation_family(seed, quick):
         datas = []
         if memk != 'none':
             datas = [Data(('i32.const', 2), b'\x11\x22\x33\x44'), Data(('global.get', 0), b'\xA1\xA2\xA3'),
-                     Data(('i32.const', 4), b'\x55\x66'), Data(('i32.const', 9), b''),
+                     Data(('i32.const', 3), b'\x00\x66\x00\x00'), Data(('i32.const', 9), b''),
                      Data(None, b'\x99\x98', passive=True)][:2 + variant + (1 if variant == 2 else 0)]
             if variant == 1:
                 datas[0].flag2 = True
